@@ -447,6 +447,49 @@ func checkC06(r *Result) {
 		}
 	}
 	r.check(nDisp == 1, "DISPATCH", "one dispatch site between the two aggregation functions", "-", fmt.Sprint(nDisp))
+	// the function that is called is chosen in the same iteration: the called value is not carried around the loop
+	for _, fn := range P.RepoFuncs {
+		for _, b := range fn.Blocks {
+			for _, in := range b.Instrs {
+				c, ok := in.(*ssa.Call)
+				if !ok || c.Call.IsInvoke() || c.Call.StaticCallee() != nil {
+					continue
+				}
+				callees := P.CalleesOfCall(c)
+				isAgg := false
+				for _, ce := range callees {
+					n := FuncName(ce)
+					if strings.Contains(n, "WeightedMedian") || strings.Contains(n, "WeightedMode") {
+						isAgg = true
+					}
+				}
+				if !isAgg {
+					continue
+				}
+				carried := false
+				seen := map[ssa.Value]bool{}
+				var walk func(v ssa.Value)
+				walk = func(v ssa.Value) {
+					if seen[v] {
+						return
+					}
+					seen[v] = true
+					if ph, ok := v.(*ssa.Phi); ok {
+						for _, h := range loopHeaders(fn) {
+							if ph.Block() == h {
+								carried = true
+							}
+						}
+						for _, e := range ph.Edges {
+							walk(e)
+						}
+					}
+				}
+				walk(c.Call.Value)
+				r.check(!carried, "DISPATCH", FuncName(TopFunc(fn))+" # the aggregation function called for a query is selected for that query (not carried over from the previous one)", pos(c.Pos()), fmt.Sprintf("called value is loop-carried: %v", carried))
+			}
+		}
+	}
 	r.minCount("MEDIAN-SORT", 5)
 	r.minCount("MEDIAN-HALF", 3)
 	r.minCount("MEDIAN-SELECT", 3)
@@ -454,7 +497,7 @@ func checkC06(r *Result) {
 	r.minCount("ALL-REPORTS", 4)
 	r.minCount("MODE-COUNT", 4)
 	r.minCount("MODE-REPORTER", 2)
-	r.minCount("DISPATCH", 2)
+	r.minCount("DISPATCH", 3)
 }
 
 // allReportsRule: one append of an AggregateReporter per iteration over the reports, fields from the same element.
